@@ -161,8 +161,15 @@ BINOPS = ["*", "/", "%", "+", "-", "<<", ">>", "<", "<=", ">", ">=", "==", "!=",
 PREC = {"*": 10, "/": 10, "%": 10, "+": 9, "-": 9, "<<": 8, ">>": 8, "<": 7, "<=": 7, ">": 7, ">=": 7, "==": 6, "!=": 6,
         "&": 5, "^": 4, "|": 3, "&&": 2, "||": 1}
 LITS = ["0", "1", "2", "3", "7", "010", "0x10", "0b101", "9223372036854775807", "1u", "0u", "18446744073709551615u",
-        "0xFFFFFFFFFFFFFFFFu", "2ull", "5L", "017", "0X1F", "100UL"]
-CHARS = [("'a'", 97), ("'0'", 48), ("'\\n'", 10), ("'\\0'", 0), ("'\\\\'", 92), ("'\\''", 39), ("'\\x41'", 0x41), ("'\\101'", 65)]
+        "0xFFFFFFFFFFFFFFFFu", "2ull", "5L", "017", "0X1F", "100UL",
+        # every integer-suffix shape of ISO C 6.4.4.1: u/U with l/L or ll/LL in either order and any case combination
+        "3ul", "3uL", "3Ul", "3lu", "3lU", "3Lu", "3LU", "3ull", "3uLL", "3Ull", "3ULL", "3llu", "3llU", "3LLu", "3LLU",
+        "3l", "3ll", "3LL", "3U", "0x3uL", "03lu", "0b11LLU"]
+CHARS = [("'a'", 97), ("'0'", 48), ("'\\n'", 10), ("'\\0'", 0), ("'\\\\'", 92), ("'\\''", 39), ("'\\x41'", 0x41), ("'\\101'", 65),
+         # every simple escape sequence of ISO C 6.4.4.4, more octal / hexadecimal shapes, punctuation
+         ("'\\a'", 7), ("'\\b'", 8), ("'\\f'", 12), ("'\\r'", 13), ("'\\t'", 9), ("'\\v'", 11), ("'\\\"'", 34), ("'\\?'", 63),
+         ("'\\7'", 7), ("'\\12'", 10), ("'\\177'", 127), ("'\\x7'", 7), ("'\\x7f'", 127), ("'\\x0A'", 10),
+         ("'\"'", 34), ("'?'", 63), ("' '", 32), ("'~'", 126), ("'A'", 65), ("'x'", 120), ("'7'", 55)]
 NEG = ("un", "-", ("lit", "1"))
 
 
@@ -189,6 +196,15 @@ def cases(tier, seed):
         yield Flat(render(a), a)
         for u in "+-!~":
             yield Flat(u + render(a), ("un", u, a))
+    # 1b. the VALUE of every character constant and literal (an atom alone only shows zero / non-zero)
+    for t, v in CHARS:
+        for w in (v, v + 1):
+            yield Flat(f"{t} == {w}", ("bin", "==", ("chr", t, v), ("lit", str(w))))
+    for x in LITS:
+        u, v = lit(x)
+        for w in (v, v - 1 if v else 1):
+            ws = f"{w}u" if u else str(w)
+            yield Flat(f"{x} == {ws}", ("bin", "==", ("lit", x), ("lit", ws)))
     # 2. every binary operator on every pair of boundary operands
     for op in BINOPS:
         for a, b in itertools.product(small, repeat=2):
@@ -305,23 +321,38 @@ def classify(tree, text):
 
 
 class BigLiteral(IfArith):
-    """unsuffixed literals that do not fit intmax_t (C: unsigned for hex/octal) -- recorded finding"""
-    role = "exhibits a recorded finding (pinned by the repository's own tests/failure)"
+    """recorded findings, exhibited by fixed inputs: unsuffixed literals that do not fit intmax_t (C: unsigned for
+    hex/octal); character constants with an encoding prefix"""
+    role = "exhibits recorded findings (the first is pinned by the repository's own tests/failure)"
 
     def bound(self, tier):
-        return "3 expressions"
+        return "3 + 3 expressions"
 
     def inputs(self, tier, seed):
-        for text, tree in (("0xFFFFFFFFFFFFFFFF == 18446744073709551615u", ("bin", "==", ("lit", "0xFFFFFFFFFFFFFFFF"), ("lit", "18446744073709551615u"))),
-                           ("0xFFFFFFFFFFFFFFFF * 0xFFFFFFFFFFFFFFFF == 1", ("bin", "==", ("bin", "*", ("lit", "0xFFFFFFFFFFFFFFFF"), ("lit", "0xFFFFFFFFFFFFFFFF")), ("lit", "1"))),
-                           ("01777777777777777777777 > 0", ("bin", ">", ("lit", "01777777777777777777777"), ("lit", "0")))):
-            yield {"text": text, "tree": tree}
+        big = "if-arith:big-unsuffixed-literal"
+        pre = "if-arith:prefixed-character-constant"
+        for text, tree, kl in (
+                ("0xFFFFFFFFFFFFFFFF == 18446744073709551615u", ("bin", "==", ("lit", "0xFFFFFFFFFFFFFFFF"), ("lit", "18446744073709551615u")), big),
+                ("0xFFFFFFFFFFFFFFFF * 0xFFFFFFFFFFFFFFFF == 1", ("bin", "==", ("bin", "*", ("lit", "0xFFFFFFFFFFFFFFFF"), ("lit", "0xFFFFFFFFFFFFFFFF")), ("lit", "1")), big),
+                ("01777777777777777777777 > 0", ("bin", ">", ("lit", "01777777777777777777777"), ("lit", "0")), big),
+                ("L'a' == 97", ("bin", "==", ("chr", "L'a'", 97), ("lit", "97")), pre),
+                ("u'a' == 97", ("bin", "==", ("chr", "u'a'", 97), ("lit", "97")), pre),
+                ("U'\\n' == 10", ("bin", "==", ("chr", "U'\\n'", 10), ("lit", "10")), pre)):
+            yield {"text": text, "tree": tree, "kl": kl}
 
     def check(self, inp):
         r = super().check(inp)
         if r:
-            r["klass"] = "if-arith:big-unsuffixed-literal"
+            r["klass"] = inp["kl"]
         return r
+
+    def encode(self, inp):
+        return {"text": inp["text"], "tree": inp["tree"], "kl": inp["kl"]}
+
+    def decode(self, j):
+        d = super().decode(j)
+        d["kl"] = j.get("kl", "if-arith:big-unsuffixed-literal")
+        return d
 
 
 # ---- the operator functions themselves, on (type, value) operands ---------------------------------
